@@ -400,8 +400,12 @@ def write_evidence(ctx, audit, checker_cmd, trusted_base, rule, assumptions, vio
     ev = {"property_id": ctx.prop, "tier": ctx.tier, "seed": ctx.seed, "level": level,
           "coverage": cov, "assumptions": assumptions, "wall_s": round(ctx.elapsed(), 2),
           "violations": violations}
-    os.makedirs(os.path.join(VERIF, "evidence"), exist_ok=True)
-    with open(os.path.join(VERIF, "evidence", f"{ctx.prop}.json"), "w", encoding="utf-8") as fd:
+    # evidence/ describes runs against /repo itself only: a run against another tree (VERIF_REPO, used to try seeded changes)
+    # leaves its record in a scratch directory instead
+    evdir = os.path.join(VERIF, "evidence") if os.path.realpath(REPO) == "/repo" else \
+        os.environ.get("VERIF_EVIDENCE_DIR", os.path.join(tempfile.gettempdir(), "verif-evidence-other-tree"))
+    os.makedirs(evdir, exist_ok=True)
+    with open(os.path.join(evdir, f"{ctx.prop}.json"), "w", encoding="utf-8") as fd:
         json.dump(ev, fd, indent=1, ensure_ascii=False)
 
 
